@@ -58,7 +58,7 @@ class OrderedSet(MutableSet):
 
     def __reversed__(self):
         end = self._end
-        curr = end[2]
+        curr = end[1]
         while curr is not end:
             yield curr[0]
             curr = curr[1]
